@@ -227,6 +227,11 @@ def run(prog, ctx):
         br = _find_block(body, rstart, [end, lstart])
         if not bl or not br:
             raise AnalysisError("X1 block pair %s: blocks '%s' / '%s' not found" % (fq, lstart, rstart))
+        # the markers delimit a left and a right block only if the code is written as two parallel blocks: same sequence of statement kinds
+        if [type(x).__name__ for x in bl] != [type(x).__name__ for x in br]:
+            ctx.undecided("X1", br[0], qual, "%s: the statements after '%s' and after '%s' are not two parallel blocks (%d vs %d statements of "
+                          "different kinds): left and right side cannot be told apart" % (desc, lstart, rstart, len(bl), len(br)))
+            continue
         try:
             only_l, only_r, nl, nr = reflect.compare_blocks(bl, br, f, _roles(**dict(rkw)))
         except reflect.Unsupported as e:
